@@ -283,6 +283,37 @@ fn coef(rng: &mut Rng, allow_zero: bool) -> F {
 /// repeated terms, lower-triangular / non-symmetric quadratic entries, explicit zeros, absent linear part,
 /// unset oneof.
 pub fn gen_func(rng: &mut Rng, ids: &[u64], max_degree: usize) -> FuncSpec {
+    let f = gen_func_plain(rng, ids, max_degree);
+    // now and then the same function in a message variant of higher degree than it needs (a constant or linear
+    // function carried by a Quadratic with an empty matrix or by a Polynomial), as far as max_degree allows
+    if !rng.chance(1, 6) {
+        return f;
+    }
+    let as_poly = |terms: &[(u64, F)], constant: F| -> FuncSpec {
+        let mut t: Vec<(Vec<u64>, F)> = terms.iter().map(|(i, c)| (vec![*i], *c)).collect();
+        t.insert(t.len() / 2, (vec![], constant));
+        FuncSpec::Polynomial { terms: t }
+    };
+    match f {
+        FuncSpec::Constant(c) if max_degree >= 2 => {
+            if max_degree >= 3 && rng.chance(1, 2) {
+                as_poly(&[], c)
+            } else {
+                FuncSpec::Quadratic { entries: vec![], linear: Some((vec![], c)) }
+            }
+        }
+        FuncSpec::Linear { terms, constant } if max_degree >= 2 => {
+            if max_degree >= 3 && rng.chance(1, 2) {
+                as_poly(&terms, constant)
+            } else {
+                FuncSpec::Quadratic { entries: vec![], linear: Some((terms, constant)) }
+            }
+        }
+        other => other,
+    }
+}
+
+fn gen_func_plain(rng: &mut Rng, ids: &[u64], max_degree: usize) -> FuncSpec {
     let pick = |rng: &mut Rng| ids[rng.usize(ids.len())];
     let d = if ids.is_empty() { 0 } else { rng.usize(max_degree + 1) };
     let lin_terms = |rng: &mut Rng, n: usize| -> Vec<(u64, F)> { (0..n).map(|_| (pick(rng), coef(rng, true))).collect() };
